@@ -316,7 +316,8 @@ def check_callable(item, acc):
 
 CLASS_STYLES = ["plain", "slots", "dataclass", "namedtuple", "no_init", "user_new", "init_args", "factory_new", "factory_new_init", "setstate", "abstract_members", "getattr_fallback", "descriptors"]
 CHILDREN = [None, "plain_noinit", "plain_init_args", "dbc_noinit", "dbc_init_args", "dbc_new", "plain_new",
-            "plain_grandchild", "dbc_grandchild", "plain_mixin_init", "plain_dict_base", "plain_exception_base"]  # constructor inherited by the class that is instantiated
+            "plain_grandchild", "dbc_grandchild", "plain_mixin_init", "plain_dict_base", "plain_exception_base",
+            "plain_prop_over_attr", "dbc_prop_over_attr"]  # constructor inherited by the class that is instantiated
 
 
 def render_class(style, inv, child, dbc, contracts):
@@ -410,6 +411,11 @@ def render_class(style, inv, child, dbc, contracts):
             if style != "no_init":
                 return None
             w[-1] = "class Child(Root, {}):\n    pass\n".format("dict" if child.endswith("dict_base") else "Exception")
+        elif child.endswith("prop_over_attr"):
+            # the child turns a plain class attribute (and a method) of the base into properties
+            if style != "no_init":
+                return None
+            w.append("    @property\n    def v(self):\n        return 5\n    @property\n    def swap(self):\n        return 'swap as property'\n")
         elif child.endswith("mixin_init"):
             if style in ("namedtuple", "dataclass", "slots"):
                 return None
@@ -506,6 +512,9 @@ def class_script(ns, style, child):
                 except Exception as e:
                     return type(e).__name__, e.args
             rec("raise Child", _raise)
+        return obs
+    if child and child.endswith("prop_over_attr"):
+        rec("Child().v", lambda: (ns["Child"]().v, ns["Child"]().swap, ns["Child"]().pub(1)))
         return obs
     if child and child.endswith("mixin_init"):
         rec("Mixed(3)", lambda: (ns["Child"](3).z, ns["Child"](3).v))
